@@ -260,6 +260,13 @@ def run_path(path, q, params):
         kind = item[0]
         if kind == 'cond':
             st.trace.append(('if ' if item[2] else 'if not ') + cz(item[1])[:70])
+            t = cz(item[1])
+            if t in ('self.current_size>self.max_size', 'self.max_size<self.current_size', 'self.current_size>=self.max_size', 'self.max_size<=self.current_size'):
+                if item[2]:
+                    st.cs_exceeds_max = True
+                else:
+                    st.grew_since_max = False    # the recorded maximum already covers the current size on this path
+                continue
             cond(item[1], item[2])
             continue
         if kind == 'skiploop':
@@ -324,6 +331,8 @@ def run_path(path, q, params):
             if isinstance(tg, ast.Attribute) and cz(tg) == 'self.max_size':
                 if cz(s.value) in ('max(self.max_size,self.current_size)', 'max(self.current_size,self.max_size)'):
                     st.grew_since_max = False
+                elif cz(s.value) == 'self.current_size' and getattr(st, 'cs_exceeds_max', False):
+                    st.grew_since_max = False      # `if current_size > max_size: max_size = current_size`
                 else:
                     raise ModelError(f'{q}: max_size assigned {cz(s.value)}')
                 continue
